@@ -34,6 +34,12 @@ CHECKS["C14"] = dict(
   text="Every byte string of length <=3 (thorough <=4) over a 40-symbol alphabet, every sequence of <=2-3 (thorough <=3) tokens over 57 grammar tokens (space-joined and adjacent) and structured stress families (all small combinations of repeated variable summands with common factors, 1000-element lists, 200-way OR, nesting depth 30, negation of disjunctions up to the stated normal-form bound, pathological regexes) are parsed twice by query.Parse in worker subprocesses: a panic, a worker death or no answer within the 60 s liveness watchdog is attributed to the exact input; the two parses must be structurally equal modulo the parse instant.",
   note="Promptness is judged only by the 60 s watchdog and only for inputs whose constructed normal form stays below ~300 conjuncts; inputs beyond that are run in thorough and reported as observations. Memory limit 6 GiB per worker.")
 
+CHECKS["C01"] = dict(
+  category="model_checking", engine="E4-enum", design_ref="3/C01",
+  technique="exhaustive enumeration of stream lists over a collision-forcing shape alphabet, written by the real Writer and read back through every Reader path against the generator's ground truth",
+  text="Every list of <=3 streams over 28 shapes (v4/v6, shared/new hosts, TCP/UDP, server-first, no payload, same-direction bursts with and without 50 ms gaps, 65535/65536/70000/131073-byte chunks, 1/254/255/256/300 payload-less packets between or before chunks, equal timestamps, durations around one and two wraps of the 32-bit microsecond offset, a stream earlier than all others (re-basing), two captures, packet indexes across 2^32, reassembly order != packet order) x 4 id patterns (dense, sparse, descending, >2^63) is written into one file and read back: StreamIDs, Min/Max, AllStreams, StreamByID (also absent ids), metadata, payload per direction and order of direction runs, packet references and times, StreamByFirstPacketSource on a grid around every stored packet. A second family fills one file to 16382/16383/16384 IPv4 hosts and appends every sequence of <=2 (thorough <=3) streams over {old>old,new>old,old>new,new>new,v6}.",
+  note="Chunking inside a direction run and per-packet times outside the representable regime (non-monotonic, gaps >= 2^32 us) are not compared. Regimes behind 2^32 streams/packets or 65536 host groups are not reachable.")
+
 NOT_YET = {}
 
 def main():
